@@ -188,13 +188,12 @@ impl Blocker {
     vf_display(filter)
 //@ ENDSUBST
 //@ REPLACE R7
-        {
-            let mut exceptions = vec![];
+        let redirect_resource = {
 //@ UPTO
             resource_and_priority.map(|(r, _)| r)
         };
 //@ WITH
-        vf_redirect_resource(&redirect_filters);
+        let redirect_resource = vf_redirect_resource(&redirect_filters);
 //@ ENDREPLACE
 //@END
 }
